@@ -56,6 +56,8 @@ type coCase struct {
 	Seed     uint64 `json:"seed"`
 	MaxMs    int    `json:"max_ms"`
 	After    bool   `json:"alone_after_concurrent,omitempty"`
+	Sizes    []int  `json:"sizes,omitempty"`
+	Hold     bool   `json:"keep_results,omitempty"`
 }
 
 type coDiff struct {
@@ -108,7 +110,7 @@ func genCryptoOverlap(algs map[string][]string, supported map[string]map[string]
 		}
 		// every other roundtrip/burst case runs the round trips alone AFTER the concurrent phase
 		after := mode != "split" && len(cases)%2 == 1
-		cases = append(cases, coCase{"crypto-overlap", family, alg, mode, g, procs, iters, distinct, rng.U64() % 1000000, 3000, after})
+		cases = append(cases, coCase{"crypto-overlap", family, alg, mode, g, procs, iters, distinct, rng.U64() % 1000000, 3000, after, nil, false})
 	}
 	gs := func(lo, hi int) int { return rng.Range(lo, hi) }
 	full := func(family, alg string, itCostly, itCheap, dCheap int) {
@@ -124,7 +126,7 @@ func genCryptoOverlap(algs map[string][]string, supported map[string]map[string]
 						if coCostly(family, alg) && g >= 8 {
 							k = it / 2
 						}
-						cases = append(cases, coCase{"crypto-overlap", family, alg, mode, g, procs, k, d, rng.U64() % 1000000, 4000, mode != "split" && len(cases)%2 == 1})
+						cases = append(cases, coCase{"crypto-overlap", family, alg, mode, g, procs, k, d, rng.U64() % 1000000, 4000, mode != "split" && len(cases)%2 == 1, nil, false})
 					}
 				}
 			}
@@ -228,6 +230,128 @@ func genCryptoOverlap(algs map[string][]string, supported map[string]map[string]
 	}
 	add("enc-wrap", "*", "roundtrip", 14, 0, 15, 2)
 	add("enc-wrap", "*", "split", 7, 0, 15, 2)
+	return append(cases, genKeptResults(algs, supported, rng, thorough)...)
+}
+
+// ---- kept results across the buffer-size thresholds (Round 8) ----
+//
+// The cases above use messages of at most ~1500 bytes (70000 for the streams) and compare a result
+// once, right after the call that produced it. These cases (keep_results) give every caller its own
+// message SIZE from the list of the usual buffer thresholds and make every caller KEEP every byte slice
+// the library hands out (ciphertext, tag, plaintext, signature, wrapped key, serialisation, stream
+// contents) next to a private copy; kept results are looked at again after every later call — in mode
+// sequential (one goroutine runs the calls of all callers in seeded orders: random interleaving / all
+// A then all B / caller by caller) after EVERY call of ANY caller, in the concurrent modes by the owner
+// after each of its own calls — and once more when everything has finished. Monitor = the property's
+// first sentence: the same result as alone, and a result already handed out never changes because of
+// another caller's operation.
+const findKeptChanged = "crypto-result-changed-by-another-call"
+
+// coBoundarySizes: the usual thresholds and their neighbours; around 256 / 1 KiB / 4 KiB / 64 KiB also
+// the sizes at which message + authentication tag (16, 24, 32 bytes) reaches the threshold.
+var coBoundarySizes = []int{0, 1, 15, 16, 17, 255, 256, 1023, 1024, 4064, 4072, 4079, 4080, 4095, 4096, 4097, 8192, 65535, 65536, 65537, 1 << 20}
+
+var coNear4K = []int{4064, 4072, 4079, 4080, 4095, 4096, 4097}
+
+var coThoroughExtra = []int{7, 8, 9, 31, 32, 33, 224, 232, 240, 257, 511, 512, 513, 992, 1000, 1008, 1025, 2047, 2048, 2049, 4063, 4065, 4081, 8191, 8193, 16383, 16384, 16385, 32768,
+	65504, 65512, 65519, 65520, 65553, 131072, 1<<20 - 1, 1<<20 + 1}
+
+func genKeptResults(algs map[string][]string, supported map[string]map[string]bool, rng *lib.Rand, thorough bool) []coCase {
+	var cases []coCase
+	rot := func(l []int) []int {
+		k := rng.Intn(len(l))
+		return append(append([]int(nil), l[k:]...), l[:k]...)
+	}
+	// seq: all sizes of the list in one sequential history (G callers x d round trips >= len(sizes))
+	seq := func(family, alg string, sizes []int, procs, rounds int) {
+		g := 11
+		d := (len(sizes) + g - 1) / g
+		cases = append(cases, coCase{"crypto-overlap", family, alg, "sequential", g, procs, rounds, d, rng.U64() % 1000000, 8000, false, rot(sizes), true})
+	}
+	// conc: a sample of the sizes (always with the 4 KiB neighbourhood; 1 MiB left to the sequential cases) on G goroutines
+	conc := func(family, alg, mode string, g, procs, iters int) {
+		sizes := append([]int(nil), coNear4K[rng.Intn(3):]...)
+		for len(sizes) < 3*g {
+			s := coBoundarySizes[rng.Intn(len(coBoundarySizes)-1)]
+			if thorough && rng.Intn(3) == 0 {
+				s = coThoroughExtra[rng.Intn(len(coThoroughExtra)-3)]
+			}
+			sizes = append(sizes, s)
+		}
+		for i := len(sizes) - 1; i > 0; i-- {
+			k := rng.Intn(i + 1)
+			sizes[i], sizes[k] = sizes[k], sizes[i]
+		}
+		if thorough {
+			iters *= 3
+		}
+		cases = append(cases, coCase{"crypto-overlap", family, alg, mode, g, procs, iters, 3, rng.U64() % 1000000, 3000, mode != "split" && len(cases)%2 == 1, sizes, true})
+	}
+	modes := []string{"roundtrip", "burst", "split"}
+	all := coBoundarySizes
+	if thorough {
+		all = append(append([]int(nil), coBoundarySizes...), coThoroughExtra...)
+	}
+	pick := rng.Intn(6)
+	for i, fam := range []string{"sym", "sym-generic", "aeskw", "aescbcaead", "padding"} {
+		for k, a := range algs[fam] {
+			if !supported[fam][a] {
+				continue
+			}
+			if thorough {
+				seq(fam, a, all, 0, 6)
+				seq(fam, a, coBoundarySizes, 1, 3)
+				for _, m := range modes {
+					conc(fam, a, m, rng.Range(2, 8), []int{0, 2}[rng.Intn(2)], 20)
+				}
+				continue
+			}
+			// quick: sym and sym-generic alternate per algorithm and seed; every algorithm gets the whole size list
+			// in a sequential history and one concurrent case whose mode rotates
+			if (fam == "sym" || fam == "sym-generic") && (i+k+pick)%2 == 1 {
+				conc(fam, a, modes[(k+pick)%3], rng.Range(3, 8), []int{0, 2}[(k+pick)%2], 12)
+				continue
+			}
+			seq(fam, a, all, []int{0, 1}[(k+pick)%2], 3)
+			if fam != "sym" && fam != "sym-generic" {
+				conc(fam, a, modes[(k+pick)%3], rng.Range(3, 8), 0, 12)
+			}
+		}
+		if len(algs[fam]) > 1 {
+			// every algorithm of the family in ONE history: the earlier result belongs to another algorithm
+			seq(fam, "*", all, 0, 3)
+			conc(fam, "*", modes[(i+pick)%3], 12, 0, 12)
+		}
+	}
+	// asymmetric: the legal sizes (the size list up to the RSA limit of the caller's key, and the limit itself)
+	for k, a := range algs["asym"] {
+		if !supported["asym"][a] {
+			continue
+		}
+		fam := []string{"asym", "asym-generic"}[(k+pick)%2]
+		small := []int{0, 1, 15, 16, 17, 30, 31, 62, 65, 66, 94, 117, 126, 149, 158, 190, 213, 214, 245, 246, 255, 256}
+		cases = append(cases, coCase{"crypto-overlap", fam, a, "sequential", 8, 0, 1, 3, rng.U64() % 1000000, 8000, false, rot(small), true})
+		if thorough {
+			cases = append(cases, coCase{"crypto-overlap", []string{"asym-generic", "asym"}[(k+pick)%2], a, "roundtrip", 6, 0, 6, 2, rng.U64() % 1000000, 4000, false, rot(small), true})
+		}
+	}
+	cases = append(cases, coCase{"crypto-overlap", "asym", "*", "roundtrip", 10, 0, 4, 2, rng.U64() % 1000000, 3000, false, []int{0, 1, 16, 17, 30, 62, 94, 117, 126, 149, 245, 256}, true})
+	// signatures (EdDSA signs the message itself: every size), key serialisations, PEM
+	cases = append(cases, coCase{"crypto-overlap", "sig", "EdDSA", "sequential", 11, 0, 2, 2, rng.U64() % 1000000, 8000, false, rot(coBoundarySizes), true})
+	cases = append(cases, coCase{"crypto-overlap", "sig", "*", "sequential", 13, 0, 1, 1, rng.U64() % 1000000, 8000, false, rot(coBoundarySizes), true})
+	cases = append(cases, coCase{"crypto-overlap", "sig", "*", "roundtrip", 13, 0, 3, 2, rng.U64() % 1000000, 3000, false, rot(coBoundarySizes[:20]), true})
+	cases = append(cases, coCase{"crypto-overlap", "keys", "*", "sequential", 16, 0, 2, 2, rng.U64() % 1000000, 8000, false, nil, true})
+	cases = append(cases, coCase{"crypto-overlap", "keys", "*", "roundtrip", 16, 0, 20, 2, rng.U64() % 1000000, 3000, false, nil, true})
+	cases = append(cases, coCase{"crypto-overlap", "pem", "*", "sequential", 10, 0, 2, 1, rng.U64() % 1000000, 8000, false, nil, true})
+	// complete enc/v1 streams, file key wrapped by the crypto package (all key-wrapping algorithms spread over the callers)
+	cases = append(cases, coCase{"crypto-overlap", "enc-wrap", "*", "sequential", 7, 0, 2, 3, rng.U64() % 1000000, 12000, false, rot(coBoundarySizes), true})
+	cases = append(cases, coCase{"crypto-overlap", "enc-wrap", "*", modes[pick%3], 7, 0, 4, 3, rng.U64() % 1000000, 4000, false, rot(coBoundarySizes[:20]), true})
+	if thorough {
+		for _, a := range algs["enc-wrap"] {
+			cases = append(cases, coCase{"crypto-overlap", "enc-wrap", a, "sequential", 6, 0, 2, 4, rng.U64() % 1000000, 12000, false, rot(all[:24]), true})
+		}
+		cases = append(cases, coCase{"crypto-overlap", "enc-wrap", "*", "sequential", 7, 1, 2, 9, rng.U64() % 1000000, 20000, false, rot(all), true})
+	}
 	return cases
 }
 
@@ -277,7 +401,15 @@ func coDescribe(c coCase, procs int) string {
 	if c.After && c.Mode != "split" {
 		order = "run alone afterwards"
 	}
-	return fmt.Sprintf("%s, %s: %d goroutines, each with its own key and messages, %d round trips each (mode %s, %s), GOMAXPROCS=%d", what, alg, c.G, c.Iters, c.Mode, order, procs)
+	if !c.Hold && len(c.Sizes) == 0 {
+		return fmt.Sprintf("%s, %s: %d goroutines, each with its own key and messages, %d round trips each (mode %s, %s), GOMAXPROCS=%d", what, alg, c.G, c.Iters, c.Mode, order, procs)
+	}
+	who := fmt.Sprintf("%d goroutines", c.G)
+	if c.Mode == "sequential" {
+		who = fmt.Sprintf("%d callers whose calls are made one at a time by one goroutine", c.G)
+	}
+	return fmt.Sprintf("%s, %s: %s, each with its own key and messages of the sizes %v (caller w, round trip j: sizes[(w+j*%d) mod %d], made legal for the algorithm), every result kept and looked at again after later calls, %d round(s) (mode %s, %s), GOMAXPROCS=%d",
+		what, alg, who, c.Sizes, c.G, len(c.Sizes), c.Iters, c.Mode, order, procs)
 }
 
 func judgeCryptoOverlap(res *lib.Result, r coResult, tag string) {
@@ -294,6 +426,12 @@ func judgeCryptoOverlap(res *lib.Result, r coResult, tag string) {
 	res.Hit(tag + ":mode=" + c.Mode)
 	res.Hit(fmt.Sprintf("%s:alone-after-concurrent=%v", tag, c.After && c.Mode != "split"))
 	res.Hit(fmt.Sprintf("%s:goroutines=%d", tag, c.G))
+	if c.Hold {
+		res.Hit(tag + ":kept-results:family=" + c.Family + ":mode=" + c.Mode)
+		for _, s := range c.Sizes {
+			res.Hit(fmt.Sprintf("%s:kept-results:size=%d", tag, s))
+		}
+	}
 	res.Hit(fmt.Sprintf("%s:gomaxprocs=%s", tag, map[bool]string{true: "default", false: strconv.Itoa(c.Procs)}[c.Procs == 0]))
 	for _, a := range r.Algs {
 		res.Hit(tag + ":alg=" + c.Family + "/" + a)
@@ -315,6 +453,11 @@ func judgeCryptoOverlap(res *lib.Result, r coResult, tag string) {
 	if r.NDiffs > 0 && len(r.Diffs) > 0 {
 		d := r.Diffs[0]
 		res.Hit(tag + ":differs")
+		if strings.HasPrefix(d.Stage, "kept ") {
+			res.Violate(findKeptChanged, fmt.Sprintf("%s: a result the library had handed out changed afterwards: caller %d (%s), round trip %d, %s: it was %s; now %s (%d difference(s) in all after %d round trips; run %d of the case)",
+				coDescribe(c, r.Procs), d.Worker, d.Alg, d.Iter, d.Stage, d.Solo, d.Got, r.NDiffs, r.Ops, r.Runs), c)
+			return
+		}
 		res.Violate(findCryptoOverlap, fmt.Sprintf("%s: goroutine %d (%s), iteration %d, stage %s: alone %q, with the other goroutines running %q (%d goroutine(s) saw a difference after %d round trips in all; run %d of the case)",
 			coDescribe(c, r.Procs), d.Worker, d.Alg, d.Iter, d.Stage, d.Solo, d.Got, r.NDiffs, r.Ops, r.Runs), c)
 	}
